@@ -561,7 +561,12 @@ func runScenario(sc *scenario, rq requester) *result {
 	defer media.VerifSetSched(nil)
 
 	exp, _, _ := sc.expect()
-	rq.setFeed(func() { cam.Send(-1, 16, 0) })
+	rq.setFeed(func() {
+		// (what the answer waits for is the server's turn, not more material: keep a reserve for the live phase)
+		if cam.NextFrame(-1) < len(frames)-150 {
+			cam.Send(-1, 16, 0)
+		}
+	})
 
 	// ---- the request
 	type ret struct {
@@ -579,7 +584,7 @@ func runScenario(sc *scenario, rq requester) *result {
 	case <-time.After(bound):
 		// no progress is possible when the requester sits in a read without deadline
 		res.outcome = "hang"
-		res.failf("requester-hangs", "the request for %s did not return within %v (net timeout %v); requester/pull goroutines:\n%s", reqPath, bound, config.NetTimeout(), stacksMatching("PullClient"))
+		res.failf("requester-hangs", "the request for %s did not return within %v (net timeout %v); requester/pull goroutines:\n%s", reqPath, bound, config.NetTimeout(), stacksMatching("PullClient")+stacksMatching("c20.(*")+stacksMatching("rtsp.(*Session)"))
 		closeCam() // lets the blocked read fail so that the process can go on
 		select {
 		case r = <-done:
@@ -608,7 +613,12 @@ func runScenario(sc *scenario, rq requester) *result {
 			res.failf("pull-fails", "the camera stays healthy and keeps playing, but the server closed the requester's connection during the handshake (%s); camera saw: %s", r.detail, renderConns(res.cam))
 		}
 	}
-	if exp == mustSucceed && r.outcome != "stream" && r.outcome != "closed" {
+	if r.outcome == "nil" && exp == mustSucceed && sc.AutoFinish && fakecam.After(sc.End) == fakecam.AfterRST {
+		// a reset discards what the peer has not read yet: the PLAY answer the camera
+		// wrote just before may never be seen, and the pull then fails at PLAY — "the
+		// camera disconnects at a step", with a not-found answer
+		evid.Class("camera reset right behind its PLAY answer: requester got not-found")
+	} else if exp == mustSucceed && r.outcome != "stream" && r.outcome != "closed" {
 		res.cam = cam.Conns()
 		res.failf("pull-fails", "every step of the camera was ok (or challenged once with the credentials of the route URL), but the request ended with %q; camera saw: %s", r.outcome, renderConns(res.cam))
 	}
@@ -798,15 +808,24 @@ func playPhase(res *result, sc *scenario, rq requester, cam *fakecam.Camera, s *
 	// (only where every answer of the handshake was well-formed: after a tolerated
 	// malformation the byte stream may legitimately be out of step)
 	if e, _, _ := sc.expect(); e == mustSucceed && rec0Stream == s && len(cam.Conns()) == 1 {
+		// a stable snapshot: the camera's cursor does not move while the consumer's
+		// list and the byte counter are read, and the consumer holds everything up to
+		// the cursor (keep-alive answers may take frames at any moment)
 		var want []fakecam.Frame
+		var got []media.Pack
+		kib := 0
 		settled := mediah.WaitFor(bound, func() bool {
 			n := cam.NextFrame(-1)
 			want = filter(frames[:min(n, len(frames))])
-			return rec0.Len() >= len(want) && cam.NextFrame(-1) == n
+			if rec0.Len() < len(want) {
+				return false
+			}
+			got = rec0.Got()
+			kib = s.Info(false).Size
+			return cam.NextFrame(-1) == n && len(got) == len(want)
 		})
-		got := rec0.Got()
-		if !settled || len(got) != len(want) {
-			res.failf("delivery-from-start", "the camera has sent %d frames (%d in the PLAY answer's write, %d in keep-alive answers' writes); the consumer attached before the play loop started received %d", len(want), res.gluedPlay, res.gluedKA, len(got))
+		if !settled {
+			res.failf("delivery-from-start", "the camera has sent %d frames (%d in the PLAY answer's write, %d in keep-alive answers' writes); the consumer attached before the play loop started received %d", len(want), res.gluedPlay, res.gluedKA, rec0.Len())
 		} else if why := compareDelivery(got, want, len(want)); why != "" {
 			res.failf("delivery-from-start", "consumer attached before the play loop started: %s", why)
 		} else {
@@ -814,7 +833,7 @@ func playPhase(res *result, sc *scenario, rq requester, cam *fakecam.Camera, s *
 			for _, f := range want {
 				bytes += len(f.Data) + 4 // interleaved unit: 4-byte prefix + packet
 			}
-			if kib := s.Info(false).Size; kib != bytes/1024 {
+			if kib != bytes/1024 {
 				res.failf("byte-counter", "the camera sent %d bytes in %d interleaved units, the stream counts %d KiB (want %d)", bytes, len(want), kib, bytes/1024)
 			}
 		}
@@ -827,7 +846,20 @@ func playPhase(res *result, sc *scenario, rq requester, cam *fakecam.Camera, s *
 	case fakecam.Continue:
 		// the server side ends it: the stream is closed, the next packet makes the pull loop notice
 		s.Close()
-		cam.Send(-1, 8, 0) // (several: frames of a track that is not set up are not sent)
+		// frames of a track that is not set up are skipped by the camera: go on until
+		// one has really been written (or the programme is exhausted)
+		sentBefore := 0
+		if c := cam.Conns(); len(c) > 0 {
+			sentBefore = c[len(c)-1].FramesSent
+		}
+		for cam.NextFrame(-1) < len(frames) {
+			if !cam.Send(-1, 4, 0) {
+				break
+			}
+			if c := cam.Conns(); c[len(c)-1].FramesSent > sentBefore || c[len(c)-1].PeerClosed {
+				break
+			}
+		}
 	case fakecam.AfterGarbage:
 		cam.Finish(-1, end, sc.EndVariant)
 		if sc.EndVariant%fakecam.GarbageVariants != 3 {
@@ -911,7 +943,12 @@ func cleanupChecks(res *result, sc *scenario, base baseline, cam *fakecam.Camera
 			if c.SelfClosed == "rst" || c.SelfClosed == "teardown" {
 				continue // the camera's socket is gone; nothing to observe from its side
 			}
-			if !cam.WaitPeerClosed(i, left()) {
+			// (re-read: the camera may be about to reset the connection itself)
+			i := i
+			if !mediah.WaitFor(left(), func() bool {
+				c := cam.Conns()[i]
+				return c.PeerClosed || c.SelfClosed == "rst" || c.SelfClosed == "teardown" || c.SelfClosed == "teardown-request"
+			}) {
 				res.failf("connection-leak", "the camera never saw the server close connection %d (%v after the end); pull goroutines:\n%s", i, bound, stacksMatching("PullClient"))
 			}
 		}
@@ -942,7 +979,12 @@ func followUp(res *result, sc *scenario, rq requester, id int, reqPath, canon st
 	_, _, wantURL, pattern := routeFor(ok, id, cam.HostPort(), "u:p")
 	defer route.Del(pattern)
 	defer rq.release()
-	rq.setFeed(func() { cam.Send(-1, 16, 0) })
+	rq.setFeed(func() {
+		// (what the answer waits for is the server's turn, not more material: keep a reserve for the live phase)
+		if cam.NextFrame(-1) < len(frames)-150 {
+			cam.Send(-1, 16, 0)
+		}
+	})
 	o, s, d := rq.request(reqPath, func() {})
 	if s == nil && o == "stream" {
 		s = media.Get(canon)
